@@ -140,7 +140,7 @@ func main() {
 		}
 		return os.Open(f)
 	})
-	rewritten, sites, ranges, iters, atomics, clocks := 0, 0, 0, 0, 0, 0
+	rewritten, sites, ranges, iters, atomics, clocks, gos := 0, 0, 0, 0, 0, 0, 0
 	for _, p := range pkgs {
 		var files []*ast.File
 		var names []string
@@ -174,6 +174,7 @@ func main() {
 			iters += st.iters
 			atomics += st.atomics
 			clocks += st.clocks
+			gos += st.gos
 		}
 	}
 	// 4. go.mod: require the shim; generics in the inserted helpers need go >= 1.20 (interface keys satisfying comparable)
@@ -196,12 +197,12 @@ func main() {
 	if err := os.WriteFile(gm, data, 0o644); err != nil {
 		fail("%v", err)
 	}
-	fmt.Printf("simrewrite: %d files rewritten, %d yield sites, %d map ranges, %d MapRange calls, %d yields at sync/atomic operations, %d clock calls redirected\n", rewritten, sites, ranges, iters, atomics, clocks)
+	fmt.Printf("simrewrite: %d files rewritten, %d yield sites, %d map ranges, %d MapRange calls, %d yields at sync/atomic operations, %d clock calls redirected, %d go statements turned into tasks\n", rewritten, sites, ranges, iters, atomics, clocks, gos)
 }
 
 type stats struct {
 	changed                               bool
-	sites, ranges, iters, atomics, clocks int
+	sites, ranges, iters, atomics, clocks, gos int
 }
 
 func rewrite(fset *token.FileSet, f *ast.File, info *types.Info, rel string, data []byte, yields, maps bool) ([]byte, stats) {
@@ -220,13 +221,75 @@ func rewrite(fset *token.FileSet, f *ast.File, info *types.Info, rel string, dat
 			eds = append(eds, edit{off: off(im.Path.Pos()), del: len(im.Path.Value), text: t})
 		}
 	}
-	// goroutines started by the LIBRARY could not be scheduled by the simulator; the command-line tool (package main and
+	// goroutines started by the LIBRARY become tasks of the simulator: `go f(a, b)` turns into a block that evaluates f, a and b
+	// at the statement (as the language prescribes) and hands a closure to simshim.Go. The command-line tool (package main and
 	// package file, which the simulated engines never call) may start as many as it likes: it is checked as a real process
 	if f.Name.Name != "main" && !strings.HasPrefix(rel, "file/") && !clockOnly {
+		nGo := 0
 		ast.Inspect(f, func(n ast.Node) bool {
-			if g, ok := n.(*ast.GoStmt); ok {
-				fail("%s:%d: go statement in the library under test; goroutines outside the simulator cannot be scheduled", rel, fset.Position(g.Pos()).Line)
+			g, ok := n.(*ast.GoStmt)
+			if !ok {
+				return true
 			}
+			nGo++
+			st.gos++
+			needShim = true
+			call := g.Call
+			if fl, isLit := call.Fun.(*ast.FuncLit); isLit && len(call.Args) == 0 {
+				// go func() { ... }()  ->  simshim.Go(func() { ... })
+				eds = append(eds, edit{off: off(g.Pos()), del: off(fl.Pos()) - off(g.Pos()), text: "simshim.Go(", prio: 2})
+				eds = append(eds, edit{off: off(fl.End()), del: off(call.End()) - off(fl.End()), text: ")"})
+				return true
+			}
+			if tv, ok := info.Types[call.Fun]; ok && (tv.IsType() || tv.IsBuiltin()) {
+				fail("%s:%d: go statement on a conversion or builtin; not supported by the rewrite", rel, fset.Position(g.Pos()).Line)
+			}
+			pre := fmt.Sprintf("{ simG%dF := ", nGo)
+			args := ""
+			var more []edit
+			for i, a := range call.Args {
+				if args != "" {
+					args += ", "
+				}
+				if tv, ok := info.Types[a]; ok && tv.Value != nil {
+					args += text(a.Pos(), a.End()) // a constant: evaluated at any time alike
+					continue
+				}
+				if tv, ok := info.Types[a]; ok {
+					if _, isTuple := tv.Type.(*types.Tuple); isTuple {
+						fail("%s:%d: go statement whose argument is a multi-value call; not supported by the rewrite", rel, fset.Position(g.Pos()).Line)
+					}
+					if tv.IsNil() {
+						args += "nil"
+						continue
+					}
+				}
+				v := fmt.Sprintf("simG%dA%d", nGo, i)
+				more = append(more, edit{off: off(a.Pos()), text: "; " + v + " := ", prio: -2})
+				args += v
+				if i == len(call.Args)-1 && call.Ellipsis.IsValid() {
+					args += "..."
+				}
+			}
+			// layout: "go FUN(A0, A1)" -> "{ simGF := FUN; simGA0 := A0; simGA1 := A1; simshim.Go(func() { simGF(simGA0, simGA1) }) }"
+			eds = append(eds, edit{off: off(g.Pos()), del: off(call.Fun.Pos()) - off(g.Pos()), text: pre, prio: 2})
+			// drop "(" and the separators between arguments, keep the argument texts (they may contain edits of their own)
+			prev := call.Fun.End()
+			for i, a := range call.Args {
+				isConst := false
+				if tv, ok := info.Types[a]; ok && (tv.Value != nil || tv.IsNil()) {
+					isConst = true
+				}
+				if isConst {
+					eds = append(eds, edit{off: off(prev), del: off(a.End()) - off(prev)})
+				} else {
+					eds = append(eds, edit{off: off(prev), del: off(a.Pos()) - off(prev), text: more[0].text})
+					more = more[1:]
+				}
+				prev = a.End()
+				_ = i
+			}
+			eds = append(eds, edit{off: off(prev), del: off(call.End()) - off(prev), text: fmt.Sprintf("; simshim.Go(func() { simG%dF(%s) }) }", nGo, args)})
 			return true
 		})
 	}
@@ -257,7 +320,18 @@ func rewrite(fset *token.FileSet, f *ast.File, info *types.Info, rel string, dat
 					eds = append(eds, edit{off: len(data), text: "\nvar _ " + id.Name + ".Duration\n"})
 				}
 			}
-		case "After", "AfterFunc", "NewTimer", "NewTicker", "Tick":
+		case "AfterFunc", "Timer":
+			// time.AfterFunc starts a task that sleeps on the simulated clock; *time.Timer in declarations follows
+			if library && !clockOnly {
+				st.clocks++
+				needShim = true
+				eds = append(eds, edit{off: off(id.Pos()), del: len(id.Name), text: "simshim", prio: 1})
+				if !keepTime[id.Name] {
+					keepTime[id.Name] = true
+					eds = append(eds, edit{off: len(data), text: "\nvar _ " + id.Name + ".Duration\n"})
+				}
+			}
+		case "After", "NewTimer", "NewTicker", "Tick":
 			if library && !clockOnly {
 				fail("%s:%d: time.%s in the library under test; timers outside the simulator cannot be scheduled", rel, fset.Position(sel.Pos()).Line, sel.Sel.Name)
 			}
